@@ -8,6 +8,7 @@ package py
 type Enumerate struct {
 	Iterable Object
 	Start    Int
+	iter     *EnumerateIterator // the one iterator over this object
 }
 
 // A python Enumerate iterator
@@ -57,12 +58,26 @@ func EnumerateNew(metatype *Type, args Tuple, kwargs StringDict) (Object, error)
 	return &Enumerate{Iterable: iter, Start: startIndex}, nil
 }
 
+// An enumerate object is a single stream: iter() of it always gives
+// the same iterator and next() steps that iterator.
+func (e *Enumerate) iterator() *EnumerateIterator {
+	if e.iter == nil {
+		e.iter = &EnumerateIterator{
+			Enumerate: *e,
+			Index:     e.Start,
+		}
+	}
+	return e.iter
+}
+
 // Enumerate iterator
 func (e *Enumerate) M__iter__() (Object, error) {
-	return &EnumerateIterator{
-		Enumerate: *e,
-		Index:     e.Start,
-	}, nil
+	return e.iterator(), nil
+}
+
+// Enumerate next - an enumerate object is an iterator itself
+func (e *Enumerate) M__next__() (Object, error) {
+	return e.iterator().M__next__()
 }
 
 // EnumerateIterator iterator
@@ -84,5 +99,5 @@ func (ei *EnumerateIterator) M__next__() (Object, error) {
 }
 
 // Check interface is satisfied
-var _ I__iter__ = (*Enumerate)(nil)
+var _ I_iterator = (*Enumerate)(nil)
 var _ I_iterator = (*EnumerateIterator)(nil)
